@@ -53,7 +53,10 @@ def run(tier):
     for family in ("7", "5"):
         table, behs = syntax.generate(check, family, num=n, seed=core.seed() + 6, depth=3)
         for i, b in enumerate(behs):
-            P = syntax.Program(table, b, random.Random(core.seed() * 7919 + i))
+            try:
+                P = syntax.Program(table, b, random.Random(core.seed() * 7919 + i))
+            except syntax.Skip:
+                continue
             src = P.render(syntax.layout_random(random.Random(i)) if i % 2 else syntax.layout_uniform("none"))
             for kind, bs in breaks(P, src, rng, per):
                 broken.append((family, kind, bs))
